@@ -260,7 +260,7 @@ def run(ctx):
                 ctx.dist['corpus-wire-error-%d' % lib.err_code(e)] += 1
             continue
         check_message(ctx, {'file': os.path.basename(f)}, toks, b, os.path.basename(f))
-    ctx.partial = ['flat text / nested text converters: line formats are exercised on the implementation, not modelled in Coq',
+    ctx.partial = ["flat text / nested text converters: line formats are exercised on the implementation, not modelled in Coq",
                    'labels_agree (an attribute is non-virtual exactly when its descriptor is an associated field) is a checked hypothesis of nested_to_flat_render']
     ctx.assumptions = ['repr / ast.literal_eval / str.format are exercised, not modelled']
 
